@@ -180,7 +180,17 @@ class Target:
     def __init__(self, name, build, names, calls=None, random_ok=()):
         self.name, self.build, self._names, self._calls, self.random_ok = name, build, names, calls, random_ok
 
-    def queries(self, obj):
+    # labels of operations that are driven as the FIRST query of a case but are not part of "ALL": they are
+    # known (recorded finding) to change the object, so having them in ALL would blur every other case
+    FIRST_ONLY = ("original_distribution(", "test_threshold_significance(")
+
+    def queries(self, obj, all_only=False):
+        q = self._queries(obj)
+        if all_only:
+            q = [t for t in q if not t[0].startswith(self.FIRST_ONLY)]
+        return q
+
+    def _queries(self, obj):
         q = [(nm, getattr(obj, nm)) for nm in self._names(obj)]
         if self._calls:
             q += self._calls(obj)
@@ -207,6 +217,17 @@ def _surr_calls(obj):
             ("refined_AAFT_surrogates~sorted", lambda: np.sort(obj.refined_AAFT_surrogates(3), axis=1)),
             ("white_noise_surrogates~sorted", lambda: np.sort(obj.white_noise_surrogates(), axis=1)),
             ("twins", lambda: [len(t) for t in obj.twins(0.6, min_dist=2)] if obj._embedding is not None else None),
+            # the significance-test helpers (histograms of a similarity measure of the data / of surrogates)
+            ("original_distribution(pearson)", lambda: obj.original_distribution(
+                type(obj).test_pearson_correlation, n_bins=5)),
+            ("original_distribution(mi)", lambda: obj.original_distribution(
+                type(obj).test_mutual_information, n_bins=5)),
+            ("test_threshold_significance(white noise, pearson)~shape", lambda: np.array(np.shape(
+                obj.test_threshold_significance(type(obj).white_noise_surrogates, type(obj).test_pearson_correlation,
+                                                realizations=2, n_bins=5, interval=(-1, 1))[0]))),
+            ("test_threshold_significance(correlated noise, mi)~shape", lambda: np.array(np.shape(
+                obj.test_threshold_significance(type(obj).correlated_noise_surrogates, type(obj).test_mutual_information,
+                                                realizations=2, n_bins=5, interval=(0, 2))[0]))),
             ("original_data", lambda: obj.original_data)]
 
 
@@ -632,7 +653,7 @@ def _rebuild(target, inputs):
 
 def _run_all(target, obj, skip=None):
     o, x = {}, {}
-    for label, thunk in target.queries(obj):
+    for label, thunk in target.queries(obj, all_only=True):
         try:
             f = c01.flat(thunk())
             if f is not None:
